@@ -25,6 +25,15 @@ Ops (`e` = exchange id of the execution link the op is executed on):
         `r ok|err|panic|builderr <kind>|buildpanic`, `delivered <number of client calls>`,
         `client <receiving client's exchange id> <request>`, `mpanic <exchange id of the manager
         that panicked>`, `resp <engine key of the echoed answer>|filtered`
+  `sroute <n> <e>*n`
+        configuration-shape family (`cfg` cases): the same builder, but every live client answers
+        `account_snapshot` with one balance per asset name and one (order-less) instrument entry per
+        instrument name it was ASKED about (amount = 1000 * its exchange id + position + 1), and the
+        names handed to `account_snapshot` / `account_stream` are recorded. Observations: `txmap …`,
+        `r ok|initerr|builderr <kind>|buildpanic`, and per linked exchange `id` in slot order
+        `asked<id> A <names> I <names>`, `asks<id> A <names> I <names>` (the two calls),
+        `snap<id> <event exchange index> <snapshot exchange index> B <asset index>:<amount>* I <instrument index>*`
+        (the indexed initial snapshot that arrived on the merged account channel)
 Event grammar (prefix, counts before lists):
   event := exId kind ; kind := S snap | B bal | O order | C cresp | T trade
   snap := exId nb bal* ni (inst no order*)* ; bal := asset p ; trade := inst p
@@ -428,13 +437,61 @@ def modelRoute (c : Coll) (rest : List String) : List String :=
                             | some k => sKey k
                             | none => ["filtered"]))]
 
+
+/-! the `sroute` op (configuration shapes: clients with a non-empty initial account state; which
+names every client is asked about at `ExecutionManager::init`, manager.rs:97-121) -/
+
+def askedToks (as is : List Nat) : List String :=
+  "A" :: as.map toString ++ "I" :: is.map toString
+
+/-- What the recording client of link `l` answers: one balance per asked asset name, one
+instrument entry per asked instrument name. -/
+def stubSnapshot (id : Nat) (as is : List Nat) : AccSnap Nat Nat Nat :=
+  { exchange := id
+    balances := as.zipIdx.map fun (n, k) => { asset := n, payload := 1000 * id + k + 1 }
+    instruments := is.map fun n => { instrument := n, orders := [] } }
+
+def snapToks (s : AccSnap Nat Nat Nat) : List String :=
+  toString s.exchange :: "B" :: s.balances.map (fun b => s!"{b.asset}:{b.payload}") ++
+    "I" :: s.instruments.map (fun i => toString i.instrument)
+
+def modelLinkLines (l : Link) : Option (List String) :=
+  let m := l.map
+  let (as, is) := (m.exchangeAssets, m.exchangeInstruments)
+  match snapshot m (stubSnapshot l.client as is) with
+  | .error _ => none
+  | .ok s =>
+    some [ line (s!"asked{l.client}" :: askedToks as is),
+           line (s!"asks{l.client}" :: askedToks as is),
+           line (s!"snap{l.client}" :: toString m.exchange.key :: snapToks s) ]
+
+def modelSnapRoute (c : Coll) (rest : List String) : List String :=
+  match full (pList pNat) rest with
+  | none => ["bad-op"]
+  | some adds =>
+    match buildExecution c adds with
+    | .error .index => ["r builderr index"]
+    | .error .duplicate => ["r builderr duplicate"]
+    | .ok none => ["r buildpanic"]
+    | .ok (some t) =>
+      let links := t.filterMap (·.2)
+      match mapO modelLinkLines links with
+      | none => ["r initerr"]
+      | some ls =>
+        line ("txmap" :: t.map fun s => s!"{s.1}:{if s.2.isSome then 1 else 0}") :: "r ok" :: ls.flatten
+
 def queryOps : List String :=
   ["map", "fexid", "fexix", "fan", "fai", "fin", "fii", "oreq", "okey", "bal", "trade", "ev", "mgr"]
 
 def step (query : Coll → String → Nat → List String → List String)
     (routeQ : Coll → List String → List String) (buildOut : Coll → List String)
+    (snapQ : Coll → List String → List String)
     (s : Option Coll) (toks : List String) : Option Coll × List String :=
   match toks with
+  | "sroute" :: rest =>
+    match s with
+    | some c => (s, snapQ c rest)
+    | none => (s, ["bad-op"])
   | "route" :: rest =>
     match s with
     | some c => (s, routeQ c rest)
@@ -466,7 +523,7 @@ def step (query : Coll → String → Nat → List String → List String)
 
 def model : Drv (Option Coll) where
   init := none
-  step := step modelQuery modelRoute collLines
+  step := step modelQuery modelRoute collLines modelSnapRoute
 
 /-! ## spec driver: prints only `r`, `back`, `massets`, `minstruments`, `client`, `resp`, and only
 when the collection is well-formed for the queried exchange (otherwise the property does not
@@ -567,9 +624,31 @@ def specRouteQ (c : Coll) (rest : List String) : List String :=
         (if decide (WF c who) then [line ("resp" :: sKey op.o.key)] else [])
     | r => routedLines op.kind r []
 
+/-- The `sroute` op from the property text ("for every exchange's execution link … only indices
+belonging to that exchange translate at all … every account event is applied to the instrument and
+asset it names"): every linked exchange's client is asked about exactly the assets and instruments
+of its own exchange (by their exchange names, in index order), and the initial snapshot it answers
+with arrives addressed to that exchange's index and to exactly those assets' / instruments' indices.
+Written directly over the collection. -/
+def specSnapRouteQ (c : Coll) (rest : List String) : List String :=
+  match full (pList pNat) rest with
+  | none => ["bad-op"]
+  | some adds =>
+    if !(decide (WFX c) && decide adds.Nodup && adds.all (specHasLink c)) then [] else
+    "r ok" :: ((c.exchanges.filter fun k => adds.contains k.id).map fun k =>
+      if !decide (WF c k.id) then [] else
+      let as := c.assets.filter (·.exchange == k.id)
+      let is := c.instruments.filter (·.exchange == k.id)
+      let asked := askedToks (as.map (·.nameExchange)) (is.map (·.nameExchange))
+      [ line (s!"asked{k.id}" :: asked),
+        line (s!"asks{k.id}" :: asked),
+        line (s!"snap{k.id}" :: toString k.key :: toString k.key :: "B" ::
+          as.zipIdx.map (fun (a, j) => s!"{a.key}:{1000 * k.id + j + 1}") ++
+          "I" :: is.map (fun i => toString i.key)) ]).flatten
+
 def spec : Drv (Option Coll) where
   init := none
-  step := step specQuery specRouteQ (fun _ => [])
+  step := step specQuery specRouteQ (fun _ => []) specSnapRouteQ
 
 end BarterModel.Driver.C04
 
